@@ -13,6 +13,8 @@ import (
 	"testing/synctest"
 	"time"
 
+	"github.com/google/uuid"
+
 	"verifsim/simrt"
 )
 
@@ -200,6 +202,9 @@ func Execute(t *testing.T, h Harness, plan *Plan) *Result {
 			}
 		}()
 		synctest.Test(t, func(t *testing.T) {
+			// package-level math/rand and uuid are part of the run's inputs (GODEBUG=randseednop=0)
+			rand.Seed(plan.Seed*31 + 7) //nolint
+			uuid.SetRand(rand.New(rand.NewSource(plan.Seed*131 + 3)))
 			if plan.Replay {
 				rec := map[int]int{}
 				for _, e := range plan.Tape {
